@@ -69,6 +69,7 @@ type injector struct {
 	host    adversary.Host
 	id      gpbft.ActorID
 	variant int
+	targetK uint64
 	simRef  **sim.Simulation
 	expectError bool
 	what    string
@@ -132,15 +133,31 @@ func signerSets(c *kernel.Chooser, pt *gpbft.PowerTable) (strong, weak []int) {
 }
 
 func (in *injector) StartInstanceAt(k uint64, _ time.Time) error {
-	if in.done || k != 0 {
+	if in.done || k != in.targetK {
 		return nil
 	}
-	in.done = true
-	c := in.e.c
 	supp, chain, err := in.host.GetProposal(bg, k)
 	if err != nil {
 		kernel.Infra("GetProposal: %v", err)
 	}
+	return in.inject(k, supp, chain)
+}
+
+// ReceiveMessage triggers the injection for instances after the first one: the first QUALITY
+// message seen for the target instance tells its base and supplemental data.
+func (in *injector) ReceiveMessage(_ context.Context, vm gpbft.ValidatedMessage) error {
+	m := vm.Message()
+	if in.done || in.targetK == 0 || m.Vote.Instance != in.targetK || m.Vote.Phase != gpbft.QUALITY_PHASE || m.Vote.Value.IsZero() {
+		return nil
+	}
+	supp := m.Vote.SupplementalData
+	return in.inject(in.targetK, &supp, m.Vote.Value)
+}
+
+func (in *injector) inject(k uint64, supp *gpbft.SupplementalData, chain *gpbft.ECChain) error {
+	in.done = true
+	in.e.r.Probe(fmt.Sprintf("inject_at_instance_%d", k))
+	c := in.e.c
 	com, err := in.host.GetCommittee(bg, k)
 	if err != nil {
 		kernel.Infra("GetCommittee: %v", err)
@@ -159,7 +176,53 @@ func (in *injector) StartInstanceAt(k uint64, _ time.Time) error {
 	if viaHonest {
 		target = honest[c.Intn(len(honest))]
 	}
+	// History: the forged decision may come after valid ones for the same instance (reported by
+	// the same or by other participants) and may borrow their aggregate.
+	var valid *gpbft.Justification
+	report := func(t gpbft.Host, d *gpbft.Justification) {
+		if _, err := t.ReceiveDecision(bg, d); err != nil {
+			kernel.Infra("ReceiveDecision: %v", err)
+		}
+	}
+	if in.variant >= 11 || c.Chance(400) {
+		pv := value
+		if c.Chance(300) {
+			pv = base
+		}
+		valid = in.craft(k, com, *supp, pv, append([]int(nil), strong...), gpbft.DECIDE_PHASE, 0, k)
+		pt := gpbft.Host(in.host)
+		if c.Chance(300) && len(honest) > 0 {
+			pt = honest[c.Intn(len(honest))]
+		}
+		in.e.r.Tracef("prelude: valid decision reported first (same reporter as the injection: %v)", pt == target)
+		in.e.r.Probe("valid_decision_before_injection")
+		report(pt, valid)
+	}
 	switch in.variant {
+	case 11, 12, 13:
+		// a decision that re-uses the bytes of an aggregate already reported in a valid decision
+		d = &gpbft.Justification{Vote: valid.Vote, Signers: valid.Signers, Signature: append([]byte(nil), valid.Signature...)}
+		in.expectError = true
+		switch in.variant {
+		case 11:
+			if valid.Vote.Value.Eq(longer) {
+				d.Vote.Value = longer.Extend([]byte("verif-extra-2"))
+			} else {
+				d.Vote.Value = longer
+			}
+			in.what = "decision for another value carrying the aggregate of a valid decision reported before"
+		case 12:
+			d.Vote.SupplementalData.PowerTable = gpbft.MakeCid([]byte(fmt.Sprintf("verif-other-supp-%d", c.Intn(4))))
+			in.what = "decision with other supplemental data carrying the aggregate of a valid decision reported before"
+		case 13:
+			if len(weak) == 0 {
+				in.expectError = false
+				in.what = "no under-powered subset available"
+				return nil
+			}
+			d.Signers = bitfieldOf(append([]int(nil), weak...))
+			in.what = "decision listing an under-powered signer set carrying the aggregate of a valid decision reported before"
+		}
 	case 0:
 		d = in.craft(k, com, *supp, value, strong, gpbft.DECIDE_PHASE, 0, k)
 		in.what = "valid decision"
@@ -236,9 +299,12 @@ func (in *injector) StartInstanceAt(k uint64, _ time.Time) error {
 	if viaHonest {
 		in.what += " (reported through an honest participant's host)"
 	}
-	in.e.r.Tracef("inject variant %d: %s", in.variant, in.what)
-	if _, err := target.ReceiveDecision(bg, d); err != nil {
-		kernel.Infra("ReceiveDecision: %v", err)
+	in.e.r.Tracef("inject variant %d at instance %d: %s", in.variant, k, in.what)
+	report(target, d)
+	if in.expectError && c.Chance(300) {
+		// the same reporter follows up with a valid decision: the run is flawed all the same
+		in.e.r.Probe("valid_decision_after_injection")
+		report(target, in.craft(k, com, *supp, value, append([]int(nil), strong...), gpbft.DECIDE_PHASE, 0, k))
 	}
 	return nil
 }
@@ -261,7 +327,8 @@ func runC19a(e *env, tier string) {
 		pw := int64(2 + c.Intn(50))
 		opts = append(opts, sim.AddHonestParticipants(cnt, sim.NewUniformECChainGenerator(uint64(c.Intn(1000)), 1, 4), sim.UniformStoragePower(gpbft.NewStoragePower(pw))))
 	}
-	inj := &injector{e: e, variant: c.Intn(11)}
+	instances := 1 + c.Pick([]int{50, 30, 20})
+	inj := &injector{e: e, variant: c.Intn(14), targetK: uint64(c.Intn(instances))}
 	var s *sim.Simulation
 	inj.simRef = &s
 	advPower := int64(1) // the silent adversary must stay below one third so that the honest run terminates quickly
@@ -275,8 +342,8 @@ func runC19a(e *env, tier string) {
 	if err != nil {
 		kernel.Infra("NewSimulation: %v", err)
 	}
-	runErr := s.Run(1, 6)
-	r.Sample["config"] = fmt.Sprintf("honest=%d groups=%d advPower=%d variant=%d", n, groups, advPower, inj.variant)
+	runErr := s.Run(uint64(instances), 6)
+	r.Sample["config"] = fmt.Sprintf("honest=%d groups=%d advPower=%d variant=%d instances=%d target=%d", n, groups, advPower, inj.variant, instances, inj.targetK)
 	r.Sample["outcome"] = fmt.Sprintf("%s -> Run error: %v", inj.what, runErr)
 	r.Tracef("%s | %s", r.Sample["config"], r.Sample["outcome"])
 	r.Steps++
